@@ -4170,7 +4170,8 @@ class Wallet(object):
             raise WalletError("Sum of inputs values is not equal to sum of outputs values plus fees")
 
         transaction.txid = transaction.signature_hash()[::-1].hex()
-        if not transaction.fee_per_kb:
+        if not transaction.fee_per_kb or isinstance(fee, int):
+            # For a given fee the rate follows from the final size estimate (change outputs included)
             transaction.fee_per_kb = int((transaction.fee * 1000.0) / transaction.vsize)
         if transaction.fee_per_kb < transaction.network.fee_min:
             raise WalletError("Fee per kB of %d is lower then minimal network fee of %d" %
